@@ -10,7 +10,23 @@ BUILD = os.path.join(ROOT, "build")
 REPO = os.environ.get("VERIF_REPO", "/repo")
 RUST_H = os.path.join(ROOT, "harness", "rust")
 RUST_BIN = os.path.join(BUILD, "rust-target", "debug", "bpt-harness")
-ENV = dict(os.environ, CARGO_NET_OFFLINE="true", PIP_NO_INDEX="1", GOPROXY="off")
+ENV = dict(os.environ, CARGO_NET_OFFLINE="true", PIP_NO_INDEX="1", GOPROXY="off", BPT_REPO=REPO)
+if REPO != "/repo" or ROOT != "/verif":
+    # a scratch copy of /verif and/or of the repository (seeded-change experiments run beside the real checks):
+    # the harness crate names its path dependency and target directory literally, so build a rewritten copy
+    import shutil
+    _h = os.path.join(BUILD, "harness-rust-copy")
+    os.makedirs(BUILD, exist_ok=True)
+    shutil.copytree(RUST_H, _h, ignore=shutil.ignore_patterns("target", "Cargo.toml", "config.toml"), dirs_exist_ok=True)
+    for _f, _subs in (("Cargo.toml", [('path = "/repo/rust"', 'path = "%s/rust"' % REPO)]),
+                      (os.path.join(".cargo", "config.toml"), [('target-dir = "/verif/build/rust-target"', 'target-dir = "%s"' % os.path.join(BUILD, "rust-target"))])):
+        _t = open(os.path.join(RUST_H, _f)).read()
+        for _a, _b in _subs:
+            _t = _t.replace(_a, _b)
+        os.makedirs(os.path.dirname(os.path.join(_h, _f)), exist_ok=True)
+        if not os.path.exists(os.path.join(_h, _f)) or open(os.path.join(_h, _f)).read() != _t:
+            open(os.path.join(_h, _f), "w").write(_t)
+    RUST_H = _h
 
 
 def _limit():
@@ -345,6 +361,8 @@ def measure_tree(kind):
             return saw_branch_root and nonempty and empty
         if kind in ("damage", "helpers"):
             return saw_branch_root and any(l.startswith("X ") and not l.startswith("X toraw") and not l.startswith("X note") for l in lines)
+        if kind == "faults":
+            return saw_branch_root and any(l.startswith("F arm-") for l in lines) and any(l.startswith("F items") or l.startswith("F keys") or l.startswith("F partial") or l.startswith("F range") for l in lines)
         if kind == "api":
             return any(o.startswith("err ") for o in outs) and any(o.startswith("ok") for o in outs)
         return True
@@ -425,4 +443,6 @@ SUITES = {
     "tree-api": {"measure": measure_tree("api")},
     "tree-damage": {"measure": measure_tree("damage")},
     "tree-helpers": {"measure": measure_tree("helpers")},
+    "tree-faults": {"measure": measure_tree("faults")},
+    "tree-exh": {"measure": measure_tree("ops")},
 }
